@@ -14,7 +14,7 @@ theorem eraseList_nil : eraseList [] = [] := by simp [eraseList]
 theorem eraseList_cons (k : HTree) (ks : List HTree) : eraseList (k :: ks) = erase k :: eraseList ks := by
   simp [eraseList]
 
-theorem eraseList_append (a b : List HTree) : eraseList (a ++ b) = eraseList a ++ eraseList b := by
+theorem fs_eraseList_append (a b : List HTree) : eraseList (a ++ b) = eraseList a ++ eraseList b := by
   induction a with
   | nil => simp [eraseList_nil]
   | cons k ks ih => simp [eraseList_cons, ih]
